@@ -194,6 +194,50 @@ assert len(SPECS) == 25 and len(BY_CODE) == 25
 # ------------------------------------------------------------------------------------------------
 
 def canon(v):
+    """Canonical, hashable, type-sensitive form.  Values nested deeper than the interpreter's recursion limit
+    allows get an equivalent FLAT form (token stream) instead of nested tuples, so that neither building nor
+    comparing the canonical form recurses."""
+    try:
+        return _canon(v)
+    except RecursionError:
+        return ("deep", tuple(_canon_flat(v)))
+
+
+def _canon_flat(root):
+    """Pre-order token stream of a (possibly very deep) value; structurally equal values <=> equal streams."""
+    out = []
+    stack = [root]
+    close = object()
+    while stack:
+        v = stack.pop()
+        if v is close:
+            out.append(")")
+            continue
+        t = type(v)
+        if t in (list, tuple):
+            out.append(("l(", len(v)))
+            stack.append(close)
+            stack.extend(reversed(v))
+        elif t is dict:
+            out.append(("d(", len(v)))
+            stack.append(close)
+            items = sorted(((_canon(k), x) for k, x in v.items()), key=lambda kx: repr(kx[0]))
+            for k, x in reversed(items):
+                stack.append(x)
+                stack.append(_Token(k))
+        elif t is _Token:
+            out.append(("k", v.value))
+        else:
+            out.append(_canon(v))
+    return out
+
+
+class _Token:
+    def __init__(self, value):
+        self.value = value
+
+
+def _canon(v):
     if v is None:
         return ("n",)
     t = type(v)
@@ -208,9 +252,9 @@ def canon(v):
     if t in (bytes, bytearray, memoryview):
         return ("y", bytes(v))
     if t in (list, tuple):
-        return ("l", tuple(canon(x) for x in v))
+        return ("l", tuple(_canon(x) for x in v))
     if t is dict:
-        return ("d", tuple(sorted(((canon(k), canon(x)) for k, x in v.items()), key=repr)))
+        return ("d", tuple(sorted(((_canon(k), _canon(x)) for k, x in v.items()), key=repr)))
     return ("o", t.__name__, repr(v)[:80])
 
 
@@ -915,8 +959,9 @@ def crosscheck(message_module, serializer_module, role_module):
         for k in sorted(table_keys - mc["keys"]):
             notes.append("%s: table key %r is not read by parse()" % (s.name, k))
         if mc["lengths"] is not None and tuple(sorted(mc["lengths"])) != tuple(sorted(s.lengths)):
-            extra = set(mc["lengths"]) - set(s.lengths)
-            (drift if extra else notes).append("%s: lengths code %s, table %s" % (s.name, mc["lengths"], s.lengths))
+            # not drift: an element count the code admits beyond the specification's is exactly what C08 must be able
+            # to report (accepted-length-N); the workloads decide, the table is not adapted to the code
+            notes.append("%s: lengths code %s, table %s" % (s.name, mc["lengths"], s.lengths))
         c = code_classes.get(s.name)
         if c is not None:
             props = {n for n in dir(c) if not n.startswith("_") and isinstance(getattr(c, n, None), property)}
